@@ -26,18 +26,18 @@ P = {
  "C06": ("capacity-guard dominance over a frozen writer list (CFG), _Static_assert witnesses on the bound formula, sibling agreement of frame walkers",
          "every raw write through dst in the frame/block-level writers is dominated by a capacity test with a dstSize_tooSmall exit; decoder copies are capacity-checked; the documented shape of ZSTD_COMPRESSBOUND; inspectors share one frame walk",
          "numeric sufficiency of ZSTD_compressBound / decompressBound / in-place margin for every input", "§4 C06"),
- "C07": ("reset-completeness (field write sets vs reset functions), cleanliness-protocol pairing on the CFG, purity reachability over the call graph",
-         "every session field written during compression is re-established by the reset functions or is on the persist-by-design list; tables marked dirty are cleaned on every path; no clock/PRNG/pid/env or pointer-valued data reaches the compression path",
+ "C07": ("reset-completeness (field write sets vs reset functions, every record field accounted for), scoped-setter and constructor-agreement rules, cleanliness-protocol pairing on the CFG, purity reachability over the call graph, finite-domain shape check of the salted hash",
+         "every field of the match state, window, optimal-parser statistics, compressed-block state, CCtx frame session and CCtx stream session written during operation is re-established by the reset path or is on a reasoned exception list; the sequence collector is disarmed on every exit; every constructor establishes default parameters; workspace tables are cleaned or fully copied; per-block scratch refreshed before use; salt applied as an XOR before the shift; no clock/PRNG/env/thread-id reachable; addresses used only for alignment; MT job boundaries free of worker-written state and pending sync points re-detected",
          "bit-identical output across histories, placements and schedules (2-run hyperproperty)", "§4 C07"),
- "C08": ("sibling guard agreement between the two dictionary loaders, CFG edge-cut rules, switch exhaustiveness",
-         "compression-side and decompression-side dictionary loaders validate the same fields with the same limits; dictID is written and checked; repeat-mode provenance; table-fill dispatch covers every strategy",
+ "C08": ("sibling guard agreement between the two dictionary loaders (frozen inventory), provenance rules on the CFG, interval reasoning from the loaders' own limits, argument-source coherence, switch exhaustiveness",
+         "both loaders validate the same fields with the same limits; repeat modes become valid only when the table provably covers every required symbol; every dictionary CTable is built for every symbol its readers index and every shift seeded from a dictionary cost is in range for the largest accepted table; dictID read/stored/written/compared; a CDict's bytes are always re-parsed with the CDict's own size and content type; every strategy indexes dictionary content; validity window",
          "round trip over dictionaries x modes x inputs", "§4 C08"),
  "C09": ("CFG edge-cut (must-pass-through) rules",
          "no success return of the frame decoders is reachable without passing the content-size comparison, the checksum comparison (when present), the truncation tests and the trailing-bytes test; pledged-size tests cut compression success",
          "that the runtime quantities compared are the right ones", "§4 C09"),
- "C10": ("CFG edge-cut rules on return-value bookkeeping, constant evaluation of the buffer-size helpers",
-         "streaming hint/expected pairing; return-0 only when the frame ended / everything flushed; recommended buffer sizes equal their documented formulas",
-         "per-call progress and flush completeness (depend on buffer fill levels and worker timing)", "§4 C10"),
+ "C10": ("CFG loop-progress and exit-class rules, return-value provenance, edge-cut rules, constant evaluation of the buffer-size helpers",
+         "the two streaming state machines cannot iterate without stopping, changing stage or doing a block's work; every early stop of the streaming compressor is dominated by the directive that justifies it and the value reported is the buffered byte count; the MT flush reports 0 only when its five pending-work tests are false; the decoder's hint is `expected` (+ block header only before a block, never for a skippable frame) and 0 only when decoded and flushed; the staging buffer holds every constant-size unit; recommended buffer sizes",
+         "per-call progress for every buffer fill level and worker timing; decodability of a completed flush (values)", "§4 C10"),
  "C11": ("lockset (guarded-by) dataflow, lock pairing, wait-in-predicate-loop, must-signal, lock-order graph, CFG must-pass-through for the job completion protocol, masked-index typestate",
          "every access to job/serial/pool state shared with workers is under its mutex or a frozen semantic exception; waits re-test predicates; writes that waiters depend on are followed by a signal; every worker exit passes the completion protocol; job ring subscripts are masked",
          "decoded output equals input under every schedule", "§4 C11"),
@@ -56,15 +56,15 @@ P = {
  "C16": ("switch exhaustiveness by enumerator value, per-case bound-check dominance, set/get access-path agreement, stage-gate edge cuts, constant-table range check",
          "every parameter has a case in bounds/set/get; every store is dominated by a bounds test naming its own parameter; set and get address the same field; setters are stage-gated; parameter reset clears everything setters write; level tables within bounds",
          "persistence of a parameter's effect as observed in emitted frames", "§4 C16"),
- "C17": ("CFG must-pass-through and checked-argument rules, sibling agreement of the two sequence copiers",
-         "with validation enabled every stored sequence passed ZSTD_validateSequence; sequence-store capacity test precedes every store; block-size determination precedes the copier; external producer results are post-processed and fall back only when enabled",
-         "that valid parses round-trip; split arithmetic of the delimiter-free copier", "§4 C17"),
+ "C17": ("CFG must-pass-through and checked-argument rules with argument provenance, sibling agreement of the two sequence copiers, frozen guard inventory (sequence error codes)",
+         "with validation enabled every stored sequence passed a checked ZSTD_validateSequence on the very values stored, at the position decoded when the match starts; validator tests; sequence-store capacity; block size determined, bounded and checked before the copier; delimiter scan bounded; external producer post-processed, bounded, fallback only when enabled; extraction bounds",
+         "that valid parses round-trip; split arithmetic of the delimiter-free copier (a seeded change there is not detected)", "§4 C17"),
  "C18": ("sibling guard agreement across trainers, allocation/cleanup CFG rules, lockset and completion protocol for optimiser workers, error discipline",
          "all trainers validate parameters/sample counts/capacity before allocating; every allocation is tested and released on all exits; COVER_best state only under its mutex, every try-parameters path ends in exactly one COVER_best_finish",
          "usability of the dictionary and determinism of its content", "§4 C18"),
- "C19": ("CFG ordering / edge-cut rules, who-may-delete call-site rule, error-discipline dataflow for library and stdio results",
-         "source removal is reachable only after a successful, closed destination; close result is tested; remove/unlink only via FIO_removeFile and the signal handler; overwrite needs force or confirmation; artefact handler ordering; every library and stdio write error reaches a non-zero verdict",
-         "enumeration over kill points (fault injection) and sparse vs non-sparse byte equality", "§4 C19"),
+ "C19": ("CFG ordering / edge-cut rules, who-may-delete call-site rule, error-discipline dataflow for library and stdio results, conservation rule on the sparse-skip counter",
+         "source removal is reachable only after a successful, closed destination; close result is tested; remove/unlink only via FIO_removeFile and the signal/atexit hooks; overwrite needs force or confirmation; artefact handler ordering; every library and stdio write error reaches a non-zero verdict; every relative seek over pending zeroes is matched by removing exactly that amount from the counter, final flush = seek(counter-1) + one zero byte",
+         "enumeration over kill points (fault injection); byte equality of sparse and non-sparse output as values", "§4 C19"),
  "C20": ("sibling guard agreement of seek-table accessors, writer/reader constant agreement, CFG edge-cut rules, IO/alloc error discipline",
          "all frame-index accessors bound the index the same way; seek-table writer and reader agree on layout constants; load rejects bad magic/reserved bits/size mismatch; per-frame checksum is compared before a frame is accepted; every IO callback result is checked",
          "that range reads equal the original bytes", "§4 C20"),
